@@ -120,13 +120,16 @@ def pad5 (n : Nat) : Str :=
 /-- `s[-k:]` for `k > 0` -/
 def lastN (k : Nat) (s : Str) : Str := s.drop (s.length - k)
 
+/-- the number `_shorten_ids` uses: parsed from the id, else the record index -/
+def contigNoOf (recordIndex : Nat) (s : Str) : Nat :=
+  match contigNumber s with
+  | some n => n
+  | none => recordIndex
+
 /-- `_shorten_ids(idstring)` for a record with the given `record_index` (repaired, D15:
     `number = f"{contig_no:05d}"[-12:]`, `f"c{number}_{idstring[:12 - len(number)]}.."`) -/
 def shortenIds (recordIndex : Nat) (s : Str) : Str :=
-  let contigNo := match contigNumber s with
-    | some n => n
-    | none => recordIndex
-  let number := lastN 12 (pad5 contigNo)
+  let number := lastN 12 (pad5 (contigNoOf recordIndex s))
   'c' :: number ++ '_' :: s.take (12 - number.length) ++ ['.', '.']
 
 /-! ### fix_record_name_id -/
@@ -150,32 +153,36 @@ def origSet : Option Str → Bool
   | some (_ :: _) => true
   | _ => false
 
+/-- `record.id.partition(".")[0]` -/
+def dotPrefix (s : Str) : Str := s.takeWhile (· != '.')
+
+/-- the RefSeq test: `id[-2] == "." and id.count(".") == 1 and len(prefix) <= 16 and prefix not in ids` -/
+def refseqOk (taken : List Str) (s : Str) : Bool :=
+  secondLast s == some '.' && s.count '.' == 1 && decide ((dotPrefix s).length ≤ 16) && !taken.contains (dotPrefix s)
+
+/-- `name, _ = generate_unique_id(record.id[:12], all_record_ids, max_length=16)`, then `add` -/
+def uniqueFallback (taken : List Str) (pre : Str) (maxLength : Int) : Except Err (Str × List Str) :=
+  match generateUniqueId pre taken 0 maxLength with
+  | .error e => .error e
+  | .ok (n, _) => .ok (n, setAdd n taken)
+
 /-- first block of `fix_record_name_id`: `if len(record.id) > 16 and not allow_long_names: …`;
     returns the new id and set -/
 def shortenStep (allowLong : Bool) (taken : List Str) (r : Rec) : Except Err (Str × List Str) :=
   if r.id.length > 16 && !allowLong then
-    let pre := r.id.takeWhile (· != '.')          -- record.id.partition(".")[0]
-    if secondLast r.id == some '.' && r.id.count '.' == 1 && pre.length ≤ 16 && !taken.contains pre then
-      .ok (pre, setAdd pre taken)
-    else
-      let short := shortenIds r.index r.id
-      if !taken.contains short then .ok (short, setAdd short taken)
-      else
-        match generateUniqueId (r.id.take 12) taken 0 16 with
-        | .error e => .error e
-        | .ok (n, _) => .ok (n, setAdd n taken)
+    if refseqOk taken r.id then .ok (dotPrefix r.id, setAdd (dotPrefix r.id) taken)
+    else if !taken.contains (shortenIds r.index r.id) then
+      .ok (shortenIds r.index r.id, setAdd (shortenIds r.index r.id) taken)
+    else uniqueFallback taken (r.id.take 12) 16
   else .ok (r.id, taken)
 
 /-- last block (repaired, D14): strip the illegal characters, keep the result unique -/
 def stripStep (allowLong : Bool) (taken : List Str) (id1 : Str) : Except Err (Str × List Str) :=
-  let stripped := strip id1
-  if stripped != id1 then
-    if taken.contains stripped then
-      match (if allowLong then generateUniqueId stripped taken 0 (-1)
-             else generateUniqueId (stripped.take 12) taken 0 16) with
-      | .error e => .error e
-      | .ok (n, _) => .ok (n, setAdd n taken)
-    else .ok (stripped, setAdd stripped taken)
+  if strip id1 != id1 then
+    if taken.contains (strip id1) then
+      if allowLong then uniqueFallback taken (strip id1) (-1)
+      else uniqueFallback taken ((strip id1).take 12) 16
+    else .ok (strip id1, setAdd (strip id1) taken)
   else .ok (id1, taken)
 
 /-- the `name` handling: shortened like the id (no uniqueness), then stripped -/
@@ -324,5 +331,21 @@ def addCds (s : GState) (c : Cds) (checksum : Str) : Except GErr (GState × Str)
         let new := name ++ '_' :: checksum
         if (s.cdsByName new).isSome then .error .assertion
         else .ok ({ s with cdss := s.cdss ++ [(new, c.loc)] }, new)
+
+/-- one call on the record: `add_gene(Gene(loc, locus_tag=name))` or
+    `add_cds_feature(CDSFeature(loc, locus_tag=…, gene=…, protein_id=…))` with the location checksum -/
+inductive GOp where
+  | gene (name : Str) (loc : Loc)
+  | cds (loc : Loc) (locusTag gene proteinId : Option Str) (checksum : Str)
+
+/-- a rejected call raises before the record is modified -/
+def applyOp (s : GState) : GOp → GState
+  | .gene name loc => addGene s name loc
+  | .cds loc lt g p chk =>
+    match addCds s (mkCds loc lt g p) chk with
+    | .ok (s', _) => s'
+    | .error _ => s
+
+def runOps (s : GState) (ops : List GOp) : GState := ops.foldl applyOp s
 
 end ASV.Ids
